@@ -45,3 +45,37 @@ Definition closure_graph (m : dmap) (nodes : list name) : graph :=
 
 Definition closure (sh : N -> list name -> list name) (m : dmap) (nodes : list name) : option mres :=
   if forallb (is_key (m_g m)) nodes then Some (new_map sh (closure_graph m nodes)) else None.
+
+(** * LayoutMap on a Map object that has been through other calls
+
+    [LayoutMap(m)] reads the node sets of the Map's current orientation and
+    the layer numbers the Map currently holds: the Kahn layers after NewMap,
+    the pushed layers after an earlier LayoutMap, the mirrored ones after
+    [Map.Reverse].  [layout_from P m L0] is LayoutMap started from the layer
+    numbers [L0]; [layout_map P m = layout_from P m (m_lay0 m)]. *)
+Definition layout_from (P : lparams) (m : dmap) (L0 : lays) : vres :=
+  let nl := m_nlayer m in
+  match push_all m L0 (rev (sorted_nodes P m L0)) with
+  | PPanic => VwPanic
+  | PFuel => VwFuel
+  | POk L =>
+      match sorted_layers P m L with
+      | None => VwPanic
+      | Some sl =>
+          match place_all P m L (mkL (repeat [] nl) [] 0%Z) (concat sl) with
+          | LFuel => VwFuel
+          | LOk st =>
+              let ymin := l_ymin st in
+              let nodes := map (fun k => (k, (lget L k, (yget (l_y st) k - ymin)%Z)))
+                               (keys (m_g m)) in
+              let ymax := fold_left (fun a e => if Z.ltb a (snd (snd e)) then snd (snd e) else a)
+                                    nodes 0%Z in
+              VwOk (mkV nodes nl (ymax + 1)%Z)
+          end
+      end
+  end.
+
+
+(** [Map.Reverse] on the layer numbers *)
+Definition mirror_lays (nl : nat) (L : lays) : lays := map (fun e => (fst e, nl - 1 - snd e)) L.
+
